@@ -56,7 +56,7 @@ impl Property for C16 {
             Phase::Random {
                 name: "sign-clear-histories",
                 cases: tier.pick(1_500, 30_000),
-                strat: Arc::new(|| (proptest::sample::select(small_pool_indices(30_000)), proptest::collection::vec(op_cheap(), 1..5)).prop_map(|(base, ops)| C16Case::History { base, ops }).boxed()),
+                strat: Arc::new(|| (proptest::sample::select(small_pool_indices(30_000)), proptest::collection::vec(prop_oneof![8 => op_cheap(), 1 => Just(Op::ClearSigInPlace), 1 => Just(Op::EmptySig)], 1..5)).prop_map(|(base, ops)| C16Case::History { base, ops }).boxed()),
             },
         ]
     }
